@@ -13,7 +13,7 @@
    Nothing but the statements closed by `exact`, followed by Print Assumptions. *)
 From Coq Require Import String Ascii.
 From NV Require Import Base.Tac Base.PyVal Base.PyStr Model.Ip Model.Ieee Model.SrcPrelude Model.SrcPreludeSRCE Model.SrcPreludeG
-  Gen.pysrc_euic_gen Gen.pysrc_euig_gen Proofs.GenOk_Src_C19_b Proofs.GenOk_Src_C19_g_eui.
+  Model.Eui Model.SrcPreludeEui2 Gen.pysrc_eui_gen Gen.pysrc_euib_gen Gen.pysrc_euic_gen Gen.pysrc_euig_gen Proofs.GenOk_Src_C19_b Proofs.GenOk_Src_C19_g_eui.
 Import ListNotations.
 Open Scope list_scope.
 Open Scope Z_scope.
@@ -32,7 +32,7 @@ Theorem C19_source_tie_g_small :
   (forall v o, src_OUI_eq_oui v o = (v =? o) /\ src_OUI_ne_oui v o = negb (v =? o) /\
                src_IAB_eq_iab v o = (v =? o) /\ src_IAB_ne_iab v o = negb (v =? o)) /\
   (forall v (recs : list orec), src_OUI_reg_count v recs = Z.of_nat (List.length recs)) /\
-  (forall v (recs : list orec) i, src_OUI_registration v recs i = py_index recs i) /\
+  (forall v (recs : list orec) i, src_OUI_registration v recs i = SrcPreludeSRCE.py_index recs i) /\
   (forall v (recs : list orec), src_OUI_getstate v recs = (v, recs)) /\
   (forall v0 v (recs : list orec), src_OUI_setstate v0 (v, recs) = (v, recs)) /\
   (forall v (r : orec), src_IAB_registration v r = r /\ src_IAB_getstate v r = (v, r)) /\
@@ -43,6 +43,20 @@ Theorem C19_source_tie_g_small :
   (forall v, src_BaseIdentifier_oct v = if v =? 0 then "0"%string else py_fmt_oct "0" v).
 Proof. exact src_id_small_ok. Qed.
 Print Assumptions C19_source_tie_g_small.
+
+(* EUI.__repr__ through the translated __str__ (which reads the receiver's dialect); EUI.info: `self.oui.registration()` really builds
+   the OUI object -- the translated constructor on the integer the translated property getter answers, AttributeError for None --,
+   likewise `self.iab.registration()` under is_iab(); the dict with the keys 'OUI' and possibly 'IAB' is the pair (record,
+   None-or-record), DictDotLookup(d) is d.  No model counterpart: stated directly. *)
+Theorem C19_source_tie_g_info :
+  (forall ver v d, src_EUI_repr ver v d = omap (fun s => append "EUI('" (append s "')")) (src_EUI_str ver v d)) /\
+  (forall OUI IAB FILE ver v, src_EUI_info OUI IAB FILE ver v =
+     (do r0 <- reg_of (src_EUI_oui ver v) (fun e => do st <- src_OUI_init_int OUI FILE 0 e; SrcPreludeSRCE.py_index (snd st) 0);
+      if src_EUI_is_iab ver v
+      then do r <- reg_of (src_EUI_iab ver v) (fun e => do st <- src_IAB_init_int IAB FILE 0 e false; Ok (snd st)); Ok (r0, Some r)
+      else Ok (r0, None))).
+Proof. exact C19_tie_g_info_ok. Qed.
+Print Assumptions C19_source_tie_g_info.
 
 Definition NLg : string := String (ascii_of_nat 10) EmptyString.
 Definition demo_file (name : string) (o s : Z) : string :=
